@@ -132,17 +132,16 @@ def check(an, rep, tier):
         args = {'A': ARR((Poly.const(nn), Poly.const(rr)), 'f')}
         args.update({k: INT(v) for k, v in extra.items()})
         I.run_function(prog.func(q), args)
-        raised = any(x[1] == 'ValueError' and x[0] == q for x in I.raises) \
-            and not I.entry_returns
-        return raised
+        from .common import dom3
+        return I
     for nn, rr, bad in ((3, 3, True), (2, 3, True), (4, 3, False),
                         (10, 3, False)):
-        got = run_lit('maxvol.maxvol', nn, rr)
+        from .common import dom3
+        Ir = run_lit('maxvol.maxvol', nn, rr)
+        st3, d3 = dom3(Ir.raises, Ir.entry_returns, bad, 'maxvol.maxvol')
         rep.add('P-domain', 'maxvol.maxvol', '%dx%d input %s'
-                % (nn, rr, 'rejected' if bad else 'accepted'),
-                'ok' if got == bad else 'violation',
-                '' if got == bad else 'a %dx%d matrix is %s' % (
-                    nn, rr, 'not rejected' if bad else 'rejected'))
+                % (nn, rr, 'rejected' if bad else 'accepted'), st3,
+                '' if st3 == 'ok' else 'a %dx%d matrix is %s' % (nn, rr, d3))
     # documented contract: 0 <= dr_min, r + dr_min <= min(r + dr_max, n)
     # (dr_max None = no upper limit); enumerated over a literal grid
     grid = []
@@ -159,16 +158,15 @@ def check(an, rep, tier):
             I_.run_function(prog.func('maxvol.maxvol_rect'),
                             {'A': ARR((Poly.const(nn), Poly.const(rr)), 'f'),
                              'dr_min': INT(dmin), 'dr_max': NONE()})
-            got = any(x[1] == 'ValueError' and x[0] == 'maxvol.maxvol_rect'
-                      for x in I_.raises) and not I_.entry_returns
         else:
-            got = run_lit('maxvol.maxvol_rect', nn, rr, dr_min=dmin,
-                          dr_max=dmax)
+            I_ = run_lit('maxvol.maxvol_rect', nn, rr, dr_min=dmin,
+                         dr_max=dmax)
+        from .common import dom3
+        st3, d3 = dom3(I_.raises, I_.entry_returns, bad, 'maxvol.maxvol_rect')
         rep.add('P-domain', 'maxvol.maxvol_rect',
                 '%dx%d, dr_min=%d, dr_max=%s %s'
                 % (nn, rr, dmin, dmax, 'rejected' if bad else 'accepted'),
-                'ok' if got == bad else 'violation',
-                '' if got == bad else 'wrong rejection behaviour')
+                st3, '' if st3 == 'ok' else 'wrong rejection behaviour: ' + d3)
     # --- _maxvol: clamps precede the dispatch, dispatch exhaustive.  Decided
     # on the abstract run with literal shapes and limits: which routine is
     # called, and with which (clamped) limits, is read from the call log.
